@@ -206,6 +206,28 @@ def _edit_dict(d, key, idx, val):
     return None
 
 
+class SimBox:
+    """A caller-defined container class for which the caller registers its own conversion function
+    (UnitDatabase.RegisterAdditionalConversionType)."""
+
+    def __init__(self, vals):
+        self.vals = list(vals)
+
+    def _sim_fp(self):
+        return ["SimBox", [float(v).hex() for v in self.vals]]
+
+
+def _convert_box(db, quantity_type, from_unit, to_unit, box):
+    return SimBox([db.Convert(quantity_type, from_unit, to_unit, float(v)) for v in box.vals])
+
+
+def _register_box_conversion():
+    from barril.units.unit_database import UnitDatabase
+
+    UnitDatabase.RegisterAdditionalConversionType(SimBox, _convert_box)
+    return None
+
+
 def _request_burst(n, prefix):
     """n distinct captioned requests in a row (what a long-running session does over hours)."""
     import barril.units as u
@@ -218,6 +240,7 @@ def _request_burst(n, prefix):
 class _Py:
     FUNCS = {
         "request_burst": _request_burst,
+        "register_box_conversion": _register_box_conversion,
         "add": operator.add,
         "sub": operator.sub,
         "mul": operator.mul,
@@ -268,7 +291,7 @@ class PeerFault(ArithmeticError):
 
 
 def make_callable(spec):
-    """'mul:3.0' / 'div:3.0' / 'aff:1.8:32.0' (x*a+b) / 'inv_aff:1.8:32.0' ((x-b)/a)."""
+    """'mul:3.0' / 'div:3.0' / 'aff:1.8:32.0' (x*a+b) / 'inv_aff:1.8:32.0' ((x-b)/a) / 'recip:2.0' (a/x)."""
     if spec in SIM_CALLABLES:
         return SIM_CALLABLES[spec]
     parts = spec.split(":")
@@ -291,6 +314,8 @@ def make_callable(spec):
             return x * nums[0] + nums[1]
         if kind == "inv_aff":
             return (x - nums[1]) / nums[0]
+        if kind == "recip":  # its own inverse; raises ZeroDivisionError for the legal amount 0
+            return nums[0] / x
         raise ValueError(spec)
 
     fn.__name__ = "sim_" + kind
